@@ -90,12 +90,12 @@ func (h *httpHandler) ServeHTTP(w http.ResponseWriter, r *http.Request) {
 		return
 	}
 
-	var wg sync.WaitGroup
+	done := make(chan struct{})
+	var once sync.Once
 	e := h.executor
 
-	wg.Add(1)
 	runner := reactive.NewRerunner(r.Context(), func(ctx context.Context) (interface{}, error) {
-		defer wg.Done()
+		defer once.Do(func() { close(done) })
 
 		ctx = batch.WithBatching(ctx)
 
@@ -128,6 +128,12 @@ func (h *httpHandler) ServeHTTP(w http.ResponseWriter, r *http.Request) {
 		return nil, nil
 	}, DefaultMinRerunInterval, false)
 
-	wg.Wait()
+	// A rerunner whose context is cancelled before its first run never calls
+	// the function above, so also stop waiting when the request is cancelled.
+	select {
+	case <-done:
+	case <-r.Context().Done():
+	}
+	// Stop waits for a run that is in flight.
 	runner.Stop()
 }
